@@ -313,8 +313,11 @@ pub unsafe extern "C" fn mmap(
                     if hint != 0 && page < m.min_hint {
                         page = m.min_hint / ps * ps;
                     }
+                    let noreplace = flags & rl::MAP_FIXED_NOREPLACE != 0;
                     if hint != 0 && model_is_free(e, &m, page, rlen) {
                         place = Some((page, false));
+                    } else if noreplace {
+                        // MAP_FIXED_NOREPLACE: EEXIST instead of a placement elsewhere
                     } else {
                         let p = m.far_next;
                         m.far_next += round_up(rlen, 0x1_0000).max(0x1_0000);
